@@ -6,6 +6,13 @@ use crate::{
     helpers::{days_in_year, is_leap, is_long_year, week_day},
 };
 
+const US_PER_SECOND: u128 = 1_000_000;
+const US_PER_MINUTE: u128 = 60 * US_PER_SECOND;
+const US_PER_HOUR: u128 = 60 * US_PER_MINUTE;
+const US_PER_DAY: u128 = 24 * US_PER_HOUR;
+const US_PER_WEEK: u128 = 7 * US_PER_DAY;
+const MAX_FRACTION_DENOMINATOR: u128 = 1_000_000_000_000_000_000_000_000;
+
 #[derive(Debug, Clone)]
 pub struct ParseError {
     index: usize,
@@ -635,18 +642,7 @@ impl<'a> Parser<'a> {
                                 duration.hours += value;
 
                                 if let Some(fraction) = op_fraction {
-                                    let extra_minutes = fraction * 60_f64;
-                                    let extra_full_minutes: f64 = extra_minutes.trunc();
-                                    duration.minutes += extra_full_minutes as u32;
-                                    let extra_seconds =
-                                        ((extra_minutes - extra_full_minutes) * 60.0).round();
-                                    let extra_full_seconds = extra_seconds.trunc();
-                                    duration.seconds += extra_full_seconds as u32;
-                                    let micro_extra = ((extra_seconds - extra_full_seconds)
-                                        * 1_000_000.0)
-                                        .round()
-                                        as u32;
-                                    duration.microseconds += micro_extra;
+                                    self.add_fraction(&mut duration, fraction, US_PER_HOUR)?;
                                 }
                             }
                             'M' => {
@@ -659,22 +655,14 @@ impl<'a> Parser<'a> {
                                 duration.minutes += value;
 
                                 if let Some(fraction) = op_fraction {
-                                    let extra_seconds = fraction * 60_f64;
-                                    let extra_full_seconds = extra_seconds.trunc();
-                                    duration.seconds += extra_full_seconds as u32;
-                                    let micro_extra = ((extra_seconds - extra_full_seconds)
-                                        * 1_000_000.0)
-                                        .round()
-                                        as u32;
-                                    duration.microseconds += micro_extra;
+                                    self.add_fraction(&mut duration, fraction, US_PER_MINUTE)?;
                                 }
                             }
                             'S' => {
                                 duration.seconds = value;
 
                                 if let Some(fraction) = op_fraction {
-                                    duration.microseconds +=
-                                        (fraction * 1_000_000.0).round() as u32;
+                                    self.add_fraction(&mut duration, fraction, US_PER_SECOND)?;
                                 }
                             }
                             _ => {
@@ -727,25 +715,7 @@ impl<'a> Parser<'a> {
                                 duration.weeks = value;
 
                                 if let Some(fraction) = op_fraction {
-                                    let extra_days = fraction * 7_f64;
-                                    let extra_full_days = extra_days.trunc();
-                                    duration.days += extra_full_days as u32;
-                                    let extra_hours = (extra_days - extra_full_days) * 24.0;
-                                    let extra_full_hours = extra_hours.trunc();
-                                    duration.hours += extra_full_hours as u32;
-                                    let extra_minutes =
-                                        ((extra_hours - extra_full_hours) * 60.0).round();
-                                    let extra_full_minutes: f64 = extra_minutes.trunc();
-                                    duration.minutes += extra_full_minutes as u32;
-                                    let extra_seconds =
-                                        ((extra_minutes - extra_full_minutes) * 60.0).round();
-                                    let extra_full_seconds = extra_seconds.trunc();
-                                    duration.seconds += extra_full_seconds as u32;
-                                    let micro_extra = ((extra_seconds - extra_full_seconds)
-                                        * 1_000_000.0)
-                                        .round()
-                                        as u32;
-                                    duration.microseconds += micro_extra;
+                                    self.add_fraction(&mut duration, fraction, US_PER_WEEK)?;
                                 }
                             }
                             'D' => {
@@ -757,22 +727,7 @@ impl<'a> Parser<'a> {
 
                                 duration.days += value;
                                 if let Some(fraction) = op_fraction {
-                                    let extra_hours = fraction * 24.0;
-                                    let extra_full_hours = extra_hours.trunc();
-                                    duration.hours += extra_full_hours as u32;
-                                    let extra_minutes =
-                                        ((extra_hours - extra_full_hours) * 60.0).round();
-                                    let extra_full_minutes: f64 = extra_minutes.trunc();
-                                    duration.minutes += extra_full_minutes as u32;
-                                    let extra_seconds =
-                                        ((extra_minutes - extra_full_minutes) * 60.0).round();
-                                    let extra_full_seconds = extra_seconds.trunc();
-                                    duration.seconds += extra_full_seconds as u32;
-                                    let micro_extra = ((extra_seconds - extra_full_seconds)
-                                        * 1_000_000.0)
-                                        .round()
-                                        as u32;
-                                    duration.microseconds += micro_extra;
+                                    self.add_fraction(&mut duration, fraction, US_PER_DAY)?;
                                 }
                             }
                             _ => {
@@ -796,19 +751,63 @@ impl<'a> Parser<'a> {
         Ok(())
     }
 
-    fn parse_duration_number_frac(&mut self) -> Result<(u32, Option<f64>), ParseError> {
+    /// Adds the decimal fraction `numerator / denominator` of a unit (given in
+    /// microseconds) to the duration, rounded half to even to the microsecond.
+    fn add_fraction(
+        &mut self,
+        duration: &mut ParsedDuration,
+        fraction: (u128, u128),
+        unit: u128,
+    ) -> Result<(), ParseError> {
+        let (numerator, denominator) = fraction;
+        let total = numerator * unit;
+        let mut us = total / denominator;
+        let remainder = total % denominator;
+
+        if remainder * 2 > denominator || remainder * 2 == denominator && us % 2 == 1 {
+            us += 1;
+        }
+
+        let parts = [
+            (us / US_PER_DAY) as u32,
+            (us % US_PER_DAY / US_PER_HOUR) as u32,
+            (us % US_PER_HOUR / US_PER_MINUTE) as u32,
+            (us % US_PER_MINUTE / US_PER_SECOND) as u32,
+            (us % US_PER_SECOND) as u32,
+        ];
+        let fields = [
+            &mut duration.days,
+            &mut duration.hours,
+            &mut duration.minutes,
+            &mut duration.seconds,
+            &mut duration.microseconds,
+        ];
+
+        for (field, part) in fields.into_iter().zip(parts) {
+            match field.checked_add(part) {
+                Some(value) => *field = value,
+                None => return Err(self.parse_error("Number too large in duration".to_string())),
+            }
+        }
+
+        Ok(())
+    }
+
+    fn parse_duration_number_frac(&mut self) -> Result<(u32, Option<(u128, u128)>), ParseError> {
         let value = self.parse_duration_number()?;
         let fraction = matches!(self.current, '.' | ',').then(|| {
-            let mut decimal = 0_f64;
-            let mut denominator = 1_f64;
+            let mut numerator = 0_u128;
+            let mut denominator = 1_u128;
 
             while let Some(digit) = self.inc().and_then(|ch| ch.to_digit(10)) {
-                decimal *= 10.0;
-                decimal += f64::from(digit);
-                denominator *= 10.0;
+                // Digits beyond the 24th cannot change the rounded microsecond
+                if denominator < MAX_FRACTION_DENOMINATOR {
+                    numerator = numerator * 10 + u128::from(digit);
+                    denominator *= 10;
+                }
             }
 
-            decimal / denominator
+            (numerator, denominator)
         });
 
         Ok((value, fraction))
